@@ -69,7 +69,8 @@ def correspondence(ctx, model_ok, tmp):
     VIS = {1: ("f1", 20240101), 2: ("f2", 20240102)}
     for v, (f, day) in VIS.items():
         reg.insertDimensionData("visit", {"instrument": "I", "id": v, "name": f"v{v}", "physical_filter": f, "day_obs": day})
-    VDEF = [(1, 10), (2, 11)]
+    # (2, 12) joins a visit and an exposure whose own records contradict each other (filter f2 vs f1)
+    VDEF = [(1, 10), (2, 11), (2, 12)]
     for v, e in VDEF:
         reg.insertDimensionData("visit_definition", {"instrument": "I", "visit": v, "exposure": e})
     BAND = {"f1": "r", "f2": "g"}
@@ -139,7 +140,7 @@ def correspondence(ctx, model_ok, tmp):
         # a consistent underlying truth to draw from, then perturb
         truth = {"instrument": "I", "detector": rng.choice([1, 2])}
         v = rng.choice([1, 2])
-        e = dict(VDEF)[v] if rng.random() < 0.7 else rng.choice([10, 11, 12])
+        e = rng.choice([x for vv, x in VDEF if vv == v]) if rng.random() < 0.7 else rng.choice([10, 11, 12])
         truth.update(visit=v, exposure=e)
         src = rng.choice(["visit", "exposure"]) if {"visit", "exposure"} <= set(G.names) else ("visit" if "visit" in G.names else "exposure")
         f, day = VIS[v] if src == "visit" else EXP[e][:2]
@@ -303,6 +304,64 @@ def correspondence(ctx, model_ok, tmp):
                     viol(f"expandDataId({full_in}, dimensions={list(names)}) refused ({eout}) a consistent data ID", f"expand-refuses:{sorted(names)}:{sorted(map(str, full_in.items()))}",
                          {"kind": "expand", "input": str(full_in), "dims": list(names)})
     ctx.count("cases", n_cases)
+
+    # ---- unions of data IDs (plain and expanded operands) commute with the key/value sets and never claim records they lack
+    expanded = []
+    for v in (1, 2):
+        for det in (1, 2):
+            expanded.append(reg.expandDataId(instrument="I", visit=v))
+            expanded.append(reg.expandDataId(instrument="I", detector=det))
+            expanded.append(reg.expandDataId(instrument="I", exposure=dict((vv, x) for vv, x in VDEF[:2])[v]))
+            expanded.append(DataCoordinate.standardize(instrument="I", visit=v, detector=det, universe=u))
+    for a, c in itertools.product(expanded, expanded):
+        ctx.evaluations += 1
+        try:
+            un = a.union(c)
+        except Exception as exn:
+            if all(a.get(k, c[k]) == c[k] for k in c.dimensions.required if k in a.dimensions.names):
+                viol(f"union of {a} and {c} raised {type(exn).__name__}", f"union-raise:{a}:{c}", {"kind": "union", "a": str(a), "b": str(c)})
+            continue
+        merged = {**dict(a.required), **dict(c.required)}
+        agree = all(dict(a.required).get(k, v_) == v_ for k, v_ in c.required.items())
+        if not agree:
+            continue
+        want = DataCoordinate.standardize(merged, dimensions=a.dimensions | c.dimensions, universe=u)
+        problems = []
+        if un != want or hash(un) != hash(want):
+            problems.append(f"is {un}, the united key/value sets give {want}")
+        if un.hasRecords():
+            for el in un.dimensions.elements:
+                try:
+                    un.records[el]
+                except KeyError:
+                    problems.append(f"claims hasRecords() but has no record for {el}")
+                    break
+        if un.hasFull():
+            for k in un.dimensions.implied:
+                try:
+                    un[k]
+                except KeyError:
+                    problems.append(f"claims hasFull() but has no value for {k}")
+        if problems:
+            viol(f"union of {a} and {c} " + "; ".join(problems), f"union:{a}:{c}", {"kind": "union", "a": str(a), "b": str(c)})
+    ctx.count("union-pairs", len(expanded) ** 2)
+
+    # ---- the stored records change (sync with update): later expansions must follow
+    before = reg.expandDataId(instrument="I", physical_filter="f2")["band"]
+    reg.syncDimensionData("physical_filter", {"instrument": "I", "name": "f2", "band": "z"}, update=True)
+    after = reg.expandDataId(instrument="I", physical_filter="f2")
+    ctx.evaluations += 2
+    if after["band"] != "z" or after.records["physical_filter"].band != "z":
+        viol(f"after syncDimensionData(physical_filter f2, band='z', update=True) expandDataId still gives band={after['band']!r} "
+             f"(record band {after.records['physical_filter'].band!r}; it was {before!r})", "stale-records-after-sync-update", {"kind": "sync-update"})
+    v2 = reg.expandDataId(instrument="I", visit=2)
+    if v2["band"] != "z":
+        viol(f"after the update of physical_filter f2, expandDataId(visit=2) gives band={v2['band']!r}, stored record says 'z'",
+             "stale-records-after-sync-update-visit", {"kind": "sync-update"})
+    reg.syncDimensionData("detector", {"instrument": "I", "id": 1, "full_name": "renamed"}, update=True)
+    if reg.expandDataId(instrument="I", detector=1).records["detector"].full_name != "renamed":
+        viol("after syncDimensionData(detector 1, full_name='renamed', update=True) expandDataId returns the old record",
+             "stale-records-after-sync-update-detector", {"kind": "sync-update"})
     for i in range(30, len(req), max(1, len(req) // 6)):
         ctx.sample({"request": req[i], "implementation": impl[i]})
     if model_ok:
